@@ -307,7 +307,7 @@ func TestVerif_C08_Sequential(t *testing.T) {
 	r.Rule("policies: systematic prefix over thresholds {1,50,99,100} x window type x minimumNumberOfCalls {0,1,N,N+1} x permitted {1,2,5}, then random (window 1-10, slow threshold, three durations incl. zero/absent); per policy one history of 60 steps {acquire, complete(any outstanding call: latest / oldest / random, success|failure|slow), clock +0 / <1s / 1s / to second boundary (-1ns) / wait-1ns / wait / max-wait (+1ns) / N s / many windows}; after every step AcquirePermission's answer and State() are compared with the reference automaton; distinct = (policy class, automaton event)")
 	r.Assume("time windows have second granularity aligned to absolute seconds (a result of second s is in the window at second S iff s > S-N); a breaker that closes starts with an empty window; slow = successful call with duration strictly above the threshold (exactly-threshold and failed-and-slow are not generated); permitted trials >= 1 and window size >= 1")
 	r.Assume("not fixed by the property and therefore followed, not judged: lazy vs eager start of HALF_OPEN / reopening, max-wait at exactly the duration or with free trial slots, HALF_OPEN decision point when minimumNumberOfCalls < permitted (those histories are explored without verdict after the first trial result)")
-	n := r.N(12000, 360000)
+	n := r.N(12000, 240000)
 	const steps = 60
 	for i := 0; i < n; i++ {
 		if !r.Mine(i) {
